@@ -55,6 +55,32 @@ class ModInfo:
     tree: ast.Module
 
 
+def _inline_handler_tuples(tree: ast.Module) -> None:
+    """`except NAME:` where NAME is bound once, at module level, to a tuple display of exception classes is `except (A, B, ...):` - the handler
+    clauses are rewritten in place (same positions), so that every analysis sees the classes a handler catches."""
+    binds: dict = {}
+    for st in tree.body:
+        if isinstance(st, ast.Assign) and len(st.targets) == 1 and isinstance(st.targets[0], ast.Name):
+            binds.setdefault(st.targets[0].id, []).append(st.value)
+        elif isinstance(st, (ast.AugAssign, ast.AnnAssign)) and isinstance(st.target, ast.Name):
+            binds.setdefault(st.target.id, []).append(None)
+    consts = {k: v[0] for k, v in binds.items() if len(v) == 1 and isinstance(v[0], ast.Tuple) and v[0].elts and all(isinstance(e, (ast.Name, ast.Attribute)) for e in v[0].elts)}
+    if not consts:
+        return
+    rebound = {n.id for n in ast.walk(tree) if isinstance(n, ast.Name) and isinstance(n.ctx, (ast.Store, ast.Del))}
+    for h in ast.walk(tree):
+        if isinstance(h, ast.ExceptHandler) and isinstance(h.type, ast.Name) and h.type.id in consts:
+            # bound exactly once in the whole module (no function rebinds it through `global`)
+            if sum(1 for n in ast.walk(tree) if isinstance(n, ast.Name) and n.id == h.type.id and isinstance(n.ctx, (ast.Store, ast.Del))) != 1 or h.type.id not in rebound:
+                continue
+            import copy
+
+            tup = copy.deepcopy(consts[h.type.id])
+            for n in ast.walk(tup):
+                ast.copy_location(n, h.type)
+            h.type = tup
+
+
 class Repo:
     """Parsed view of the package."""
 
@@ -74,6 +100,7 @@ class Repo:
             except SyntaxError as err:
                 raise AnalysisError(f"{p}: does not parse: {err}") from err
             name = p.stem
+            _inline_handler_tuples(tree)
             self.modules[name] = ModInfo(name, p, f"src/{PKG}/{p.name}", src, tree)
             for parent in ast.walk(tree):
                 for child in ast.iter_child_nodes(parent):
